@@ -14,7 +14,7 @@ tests=$(PYTHONPATH=src /venv/bin/python -m pytest -q -p no:cacheprovider 2>&1 | 
 echo "$tag  tests: $tests"
 bad=0
 for c in $checks; do
-  res=$(cd /verif && VERIF_REPO_SRC=$wt/src VERIF_OUT=$out timeout 3000 /venv/bin/python -m vf.run $c --tier ${TIER:-quick} 2>&1)
+  res=$(cd ${VERIF_DIR:-/verif} && VERIF_REPO_SRC=$wt/src VERIF_OUT=$out timeout 3000 /venv/bin/python -m vf.run $c --tier ${TIER:-quick} 2>&1)
   rc=$?
   nv=$(echo "$res" | grep -c "^VIOLATION")
   inc=$(echo "$res" | grep -c "INCOMPLETE")
